@@ -152,11 +152,12 @@ def _install():
     codetf_mod.open = lambda name, *a, **k: _W(name)
 
 
-def _args(n_sarif, has_sonar, has_dd, has_output, dry_run):
+def _args(n_sarif, has_sonar, has_dd, has_output, dry_run, empty_name=False):
     return types.SimpleNamespace(
         directory="D", verbose=False, log_format=None, project_name=None,
         sarif=["S%d" % i for i in range(n_sarif)] or None,
-        sonar_issues_json=["J1"] if has_sonar else None, sonar_hotspots_json=None,
+        # `--sonar-issues-json=J1,` (trailing comma) yields an empty file name: a result file that does not exist
+        sonar_issues_json=(["J1", ""] if empty_name else ["J1"]) if has_sonar else None, sonar_hotspots_json=None,
         defectdojo_findings_json=["J2"] if has_dd else None,
         dry_run=dry_run, path_include=[], path_exclude=[], max_workers=1,
         codemod_include=None, codemod_exclude=None, output="OUT" if has_output else None,
@@ -171,14 +172,14 @@ def _tool(i: int) -> int:
     return 2
 
 
-def run_status_inputs(dir_exists: bool, n_sarif: int, t0: int, t1: int, e0: bool, e1: bool, has_sonar: bool, sonar_exists: bool, has_dd: bool, dd_exists: bool) -> bool:
+def run_status_inputs(dir_exists: bool, n_sarif: int, t0: int, t1: int, e0: bool, e1: bool, has_sonar: bool, sonar_exists: bool, has_dd: bool, dd_exists: bool, empty_name: bool) -> bool:
     """run(): status for every combination of target-directory / result-file conditions (AI settings consistent,
     report writable): 1 iff the directory or a supplied result file is missing or two SARIF inputs come from the
-    same tool, else 0 and the report is written.
+    same tool (an empty file name produced by a trailing comma counts as a missing file), else 0 and the report is written.
     pre: 0 <= n_sarif <= 2
     post: _
     """
-    return run_status(dir_exists, n_sarif, t0, t1, e0, e1, has_sonar, sonar_exists, has_dd, dd_exists, False, False, False, False, True, True, False)
+    return run_status(dir_exists, n_sarif, t0, t1, e0, e1, has_sonar, sonar_exists, has_dd, dd_exists, False, False, False, False, True, True, False, empty_name)
 
 
 def run_status_ai_report(sonar_missing: bool, az_key: bool, az_ep: bool, ll_key: bool, ll_ep: bool, has_output: bool, report_writable: bool, dry_run: bool) -> bool:
@@ -192,7 +193,7 @@ def run_status_ai_report(sonar_missing: bool, az_key: bool, az_ep: bool, ll_key:
 
 def run_status(dir_exists: bool, n_sarif: int, t0: int, t1: int, e0: bool, e1: bool, has_sonar: bool, sonar_exists: bool,
                has_dd: bool, dd_exists: bool, az_key: bool, az_ep: bool, ll_key: bool, ll_ep: bool,
-               has_output: bool, report_writable: bool, dry_run: bool) -> bool:
+               has_output: bool, report_writable: bool, dry_run: bool, empty_name: bool = False) -> bool:
     """codemodder.run(): the returned status is the documented one for the condition that applies (1: missing
     directory / missing result file / two SARIF inputs of the same tool; 3: inconsistent AI-client settings; 2:
     report cannot be written; else 0); a non-zero status is never returned for a run whose report was written;
@@ -224,7 +225,7 @@ def run_status(dir_exists: bool, n_sarif: int, t0: int, t1: int, e0: bool, e1: b
             return []
 
     cm.CodemodExecutionContext = Ctx
-    cm.parse_args = lambda argv, reg: _args(n_sarif, has_sonar, has_dd, has_output, dry_run)
+    cm.parse_args = lambda argv, reg: _args(n_sarif, has_sonar, has_dd, has_output, dry_run, empty_name)
     got = cm.run(["D"])
 
     applicable = set()
@@ -233,7 +234,7 @@ def run_status(dir_exists: bool, n_sarif: int, t0: int, t1: int, e0: bool, e1: b
     else:
         sarif_missing = (n_sarif >= 1 and not e0) or (n_sarif >= 2 and not e1)
         dup = n_sarif == 2 and e0 and e1 and ENV.sarif_tool["S0"] == ENV.sarif_tool["S1"] and ENV.sarif_tool["S0"] != 2
-        if sarif_missing or dup or (has_sonar and not sonar_exists) or (has_dd and not dd_exists):
+        if sarif_missing or dup or (has_sonar and (not sonar_exists or empty_name)) or (has_dd and not dd_exists):
             applicable.add(1)
         if az_key != az_ep or ll_key != ll_ep:
             applicable.add(3)
@@ -317,7 +318,8 @@ def planted_status_dropped(report_writable: bool) -> bool:
 
 
 def warmup():
-    run_status_inputs(True, 2, 0, 1, True, True, True, True, True, True)
+    run_status_inputs(True, 2, 0, 1, True, True, True, True, True, True, False)
+    run_status_inputs(True, 0, 0, 1, True, True, True, True, False, True, True)
     run_status_ai_report(False, True, True, False, False, True, True, True)
     run_status(True, 2, 0, 1, True, True, True, True, True, True, True, True, False, False, True, True, True)
     run_status(True, 1, 0, 1, True, True, False, True, False, True, True, False, False, False, True, False, False)
